@@ -604,6 +604,10 @@ func callName(c *ssa.Call) []string {
 	// a call through a function-valued struct field (srv.MsgInvalidFunc(m, err)) goes by the field's name
 	switch v := c.Call.Value.(type) {
 	case *ssa.UnOp:
+		if fv, ok := v.X.(*ssa.FreeVar); ok && v.Op == token.MUL {
+			// a variable captured by reference: the call goes by the variable's name
+			return []string{fv.Name()}
+		}
 		if fa, ok := v.X.(*ssa.FieldAddr); ok && v.Op == token.MUL {
 			if st, ok := derefType(fa.X.Type()).Underlying().(*types.Struct); ok {
 				return []string{st.Field(fa.Field).Name()}
@@ -613,6 +617,11 @@ func callName(c *ssa.Call) []string {
 		if st, ok := v.X.Type().Underlying().(*types.Struct); ok {
 			return []string{st.Field(v.Field).Name()}
 		}
+	case *ssa.FreeVar:
+		// a call through a function value captured by a closure goes by the captured variable's name
+		return []string{v.Name()}
+	case *ssa.Parameter:
+		return []string{v.Name()}
 	}
 	return nil
 }
